@@ -30,9 +30,10 @@ class Parenthesis(Token):
                                  Separator) and self.get_name == ')':
             from .operand import Empty
             Empty().ast(tokens, stack, builder)
+        from .operator import Operator
         if self.has_start and tokens and (isinstance(tokens[-1], Operand) or (
                 isinstance(tokens[-1], Parenthesis) and tokens[-1].has_end
-        )):
+        ) or (isinstance(tokens[-1], Operator) and tokens[-1].name == '%')):
             raise TokenError
         super(Parenthesis, self).ast(tokens, stack, builder)
         if self.has_start:
